@@ -135,3 +135,40 @@ func verifLemmaRoundTripEthernet(eth *Ethernet, b gopacket.SerializeBuffer, df g
 		d.SrcMAC[0] == src[0] && d.SrcMAC[1] == src[1] && d.SrcMAC[2] == src[2] && d.SrcMAC[3] == src[3] && d.SrcMAC[4] == src[4] && d.SrcMAC[5] == src[5] &&
 		d.EthernetType == typ && d.Length == 0 && len(d.Payload) == n)
 }
+
+// ---- per-layer flows (C17): the reported flow carries exactly the layer's source and destination address bytes ------
+
+//@ pred flowOf(f gopacket.Flow, s []byte, d []byte) = wfF(f) && f.slen == len(s) && f.dlen == len(d) && (forall i in 0..16 :: i < len(s) ==> f.src[i] == s[i]) && (forall i in 0..16 :: i < len(d) ==> f.dst[i] == d[i])
+
+//@ func (e *Ethernet) LinkFlow() gopacket.Flow
+//@   props C17
+//@   requires len(e.SrcMAC) <= 16 && len(e.DstMAC) <= 16
+//@   ensures flowOf(result, e.SrcMAC, e.DstMAC)
+//@ func (f *FDDI) LinkFlow() gopacket.Flow
+//@   props C17
+//@   requires len(f.SrcMAC) <= 16 && len(f.DstMAC) <= 16
+//@   ensures flowOf(result, f.SrcMAC, f.DstMAC)
+//@ func (i *IPv4) NetworkFlow() gopacket.Flow
+//@   props C17
+//@   requires len(i.SrcIP) <= 16 && len(i.DstIP) <= 16
+//@   ensures flowOf(result, i.SrcIP, i.DstIP)
+//@ func (ipv6 *IPv6) NetworkFlow() gopacket.Flow
+//@   props C17
+//@   requires len(ipv6.SrcIP) <= 16 && len(ipv6.DstIP) <= 16
+//@   ensures flowOf(result, ipv6.SrcIP, ipv6.DstIP)
+//@ func (t *TCP) TransportFlow() gopacket.Flow
+//@   props C17
+//@   requires len(t.sPort) <= 16 && len(t.dPort) <= 16
+//@   ensures flowOf(result, t.sPort, t.dPort)
+//@ func (u *UDP) TransportFlow() gopacket.Flow
+//@   props C17
+//@   requires len(u.sPort) <= 16 && len(u.dPort) <= 16
+//@   ensures flowOf(result, u.sPort, u.dPort)
+//@ func (s *SCTP) TransportFlow() gopacket.Flow
+//@   props C17
+//@   requires len(s.sPort) <= 16 && len(s.dPort) <= 16
+//@   ensures flowOf(result, s.sPort, s.dPort)
+//@ func (u *UDPLite) TransportFlow() gopacket.Flow
+//@   props C17
+//@   requires len(u.sPort) <= 16 && len(u.dPort) <= 16
+//@   ensures flowOf(result, u.sPort, u.dPort)
